@@ -433,6 +433,11 @@ def gen_when_condition(rng, w, scope, numeric=True, must_mention=None, **kw):
             cs.append(lf)
     if not cs:
         return None
+    if must_mention is None and rng.random() < 0.08:
+        # a universally quantified condition among the conjuncts of the antecedent
+        q = gen_forall(rng, w, scope, depth=0, numeric=False)
+        if q:
+            return ["and"] + cs + [q]
     if len(cs) == 1 and rng.random() < 0.5:
         return cs[0]
     if len(cs) >= 2 and rng.random() < 0.3:
